@@ -16,6 +16,10 @@ func main() {
 		os.Exit(2)
 	}
 	prop := os.Args[1]
+	if prop == "c08worker" && len(os.Args) > 3 {
+		n, _ := strconv.Atoi(os.Args[3])
+		os.Exit(c08Worker(os.Args[2], n))
+	}
 	if prop == "c19worker" && len(os.Args) > 2 {
 		os.Exit(c19Worker(os.Args[2]))
 	}
